@@ -78,6 +78,7 @@ type FnCtx struct {
 	closures      map[string]*ssa.MakeClosure
 	inlined       map[string]bool
 	usedContracts map[string]*FuncContract
+	callFVs       map[string]Val // captured-variable bindings for the next callByContract (closure call)
 	usedLockInvs  map[string]bool
 	typeIDs       map[string]bool
 	axiomFacts    []string
@@ -443,7 +444,9 @@ func (c *FnCtx) execInstrs(frame *Frame, b *ssa.BasicBlock, i int, st *State) {
 								known = false
 							}
 						}
-						rs = append(rs, c.val(st, r))
+						if known {
+							rs = append(rs, c.val(st, r))
+						}
 					}
 				}
 				if known {
